@@ -47,16 +47,17 @@ type Options struct {
 }
 
 type World struct {
-	Sandbox  string // S
-	Cfg      string // S/cfg
-	FileRoot string // S/cfg/Files
-	UsersDir string
-	Srv      *hotline.Server
-	Log      *LogSink
-	Accounts *verifhooks.YAMLAccountManager
-	Board    *verifhooks.FlatNews
-	News     *verifhooks.ThreadedNewsYAML
-	Bans     *verifhooks.BanFile
+	Sandbox   string // S
+	Cfg       string // S/cfg
+	FileRoot  string // S/cfg/Files
+	UsersDir  string
+	Srv       *hotline.Server
+	Log       *LogSink
+	Accounts  *verifhooks.YAMLAccountManager
+	Board     *verifhooks.FlatNews
+	News      *verifhooks.ThreadedNewsYAML
+	Bans      *verifhooks.BanFile
+	Agreement *verifhooks.Agreement
 
 	ctx      context.Context
 	cancel   context.CancelFunc
@@ -237,6 +238,7 @@ func (w *World) build() error {
 		return fmt.Errorf("agreement: %w", err)
 	}
 	srv.Agreement = ag
+	w.Agreement = ag
 	if w.News, err = verifhooks.NewThreadedNewsYAML(filepath.Join(w.Cfg, "ThreadedNews.yaml")); err != nil {
 		return fmt.Errorf("news: %w", err)
 	}
